@@ -632,7 +632,16 @@ def apply_contract(ex, st, fi, c, env, node):
                     lab, text = item if isinstance(item, tuple) else (f"at-call-{key}", item)
                     e2 = dict(ex.entry_env)
                     e2.update({k: v for k, v in ex.unit_env_view(st).items()})
-                    g = spec_eval(ex, st, e2, text, old=ex.entry_old)
+                    for _try in range(6):
+                        try:
+                            g = spec_eval(ex, st, e2, text, old=ex.entry_old)
+                            break
+                        except Unsupported as u:
+                            if "unknown name in spec: " not in u.msg:
+                                raise
+                            # a local that does not exist on this path: an arbitrary value (the clause must hold whatever it is)
+                            nm = u.msg.split("unknown name in spec: ")[1].split()[0]
+                            e2[nm] = SV("val", fresh("undef_" + nm, Val), None)
                     ex.oblige(st, "at-call", f"{lab}", node, g)
     # parameter typing from the contract
     for p, tys in c.types.items():
@@ -658,7 +667,7 @@ def apply_contract(ex, st, fi, c, env, node):
     mods, star, ovar = parse_modifies(ex, st, env, c.modifies)
     alive0 = ex.heap_get(st, "$alive")
     if star:
-        havoc_all(ex, st)
+        havoc_all(ex, st, fi)
     else:
         for hn, preds in mods.items():
             havoc_heap(ex, st, hn, preds, ovar, alive0)
@@ -748,15 +757,107 @@ def spec_eval_in(ex, st, heap, env, text):
     return spec_eval(ex, s, env, text)
 
 
-def havoc_all(ex, st):
-    alive = ex.heap_get(st, "$alive")
+def havoc_all(ex, st, fi=None):
+    """`*`: everything the callee's call graph can possibly write.  An attribute that no function reachable
+    from the callee (resolved by NAME over all repo classes) ever assigns keeps its value; one that is only
+    assigned through `self` inside some classes keeps its value on objects of all other classes; containers,
+    ghost state and attribute-existence maps are always havocked."""
+    closure = None
+    if fi is not None:
+        closure, mut = ex.P.write_closure(fi)
+        # materialise every declared attribute first, so that kept ones are not lost with the epoch change
+        for (c, n) in ex.S.fields:
+            if n not in st.heap:
+                ex.heap_get(st, n)
+    keep = set()
+    # containers: which list / dict kinds can be reached through the attributes the call graph mutates through
+    croles = None
+    if closure is not None and None not in mut:
+        croles = {"Local", "Any"}
+        for a in mut:
+            if a == "$Local":
+                continue
+            attr, depth = a
+            for (c, n), ty in ex.S.fields.items():
+                if n == attr:
+                    kinds_at_depth(ex, ty, depth, croles)
     for hn in list(st.heap.keys()):
         if hn == "$alive":
             continue
+        if hn in ("$seq", "$dv", "$dh", "$dk") and croles is not None:
+            old, new = ex.fresh_heap(st, hn)
+            o = z3.Int(f"o!{next(_uid)}")
+            notw = z3.And([role_of(o) != ex.rid(k) for k in sorted(croles)])
+            st.assume(smt.forall([o], z3.Implies(notw, new[o] == old[o]), patterns=[new[o]]))
+            continue
+        base = hn[4:] if hn.startswith("has$") else hn
+        if closure is not None and not base.startswith("$") and base not in ex.S.ghost:
+            if base not in closure:
+                keep.add(hn)
+                continue
+            owners = closure[base]
+            if owners is not None and not hn.startswith("has$"):
+                old, new = ex.fresh_heap(st, hn)
+                fams = sorted({c2 for c in owners for c2 in ex.concrete_subclasses([c])})
+                o = z3.Int(f"o!{next(_uid)}")
+                notfam = z3.And([cls_of(o) != ex.cid(c) for c in fams]) if fams else z3.BoolVal(True)
+                st.assume(smt.forall([o], z3.Implies(notfam, new[o] == old[o]), patterns=[new[o]]))
+                continue
         ex.fresh_heap(st, hn)
     st.epoch = next(_uid) + 1
     if ex.writes is not None:
         ex.writes.add("*")
+        k2 = {h for h in keep if not h.startswith("has$")}
+        ex.star_keep = k2 if getattr(ex, "star_keep", None) is None else (ex.star_keep & k2)
+
+
+def kinds_at_depth(ex, ty, depth, out):
+    """container kinds found `depth` subscripts below a value of declared type ty (depth 0: ty itself)"""
+    if ty is None:
+        return
+    if isinstance(ty, tuple):            # dict kind: (key type, value type) -- subscripting yields the value
+        kinds_at_depth(ex, ty[1], depth, out)
+        return
+    if ty.kind in ("opt", "orfalse"):
+        kinds_at_depth(ex, ty.args[0], depth, out)
+        return
+    if ty.kind == "union":
+        for a in ty.args:
+            kinds_at_depth(ex, a, depth, out)
+        return
+    if ty.kind in ("list", "dict"):
+        if depth == 0:
+            out.add(ty.name)
+        else:
+            kinds_at_depth(ex, ex.S.kinds.get(ty.name), depth - 1, out)
+        return
+    if ty.kind == "tup2":
+        for a in ty.args:
+            kinds_at_depth(ex, a, max(depth - 1, 0), out)
+        return
+    if ty.kind == "val":
+        out.add("Any")
+        out.add("Local")
+
+
+def collect_kinds(ex, ty, out, depth=0):
+    """all container kinds nested in a declared type (a list of lists, a dict of dicts ...)"""
+    if ty is None or depth > 6:
+        return
+    if isinstance(ty, tuple):
+        for t in ty:
+            collect_kinds(ex, t, out, depth + 1)
+        return
+    if ty.kind in ("list", "dict"):
+        if ty.name not in out:
+            out.add(ty.name)
+            collect_kinds(ex, ex.S.kinds.get(ty.name), out, depth + 1)
+        return
+    if ty.kind == "val":
+        out.add("Any")      # an untyped slot may hold any local list
+        return
+    for a in getattr(ty, "args", []) or []:
+        collect_kinds(ex, a, out, depth + 1)
 
 
 class HeapDict(dict):
